@@ -215,6 +215,14 @@ func (g *Gen) Op(name string, ac *chain.Actor, ctx sdk.Context) sdk.Msg {
 		return &banktypes.MsgSend{FromAddress: me, ToAddress: zero, Amount: cs}
 	case "joinSingle":
 		d := []string{"uusdc", "uatom"}[r.Intn(2)]
+		if r.Intn(3) == 0 {
+			// single-asset join of a constant-product pool (priced by the weighted share formula)
+			if g.Pool3 && r.Intn(2) == 0 {
+				return &ammtypes.MsgJoinPool{Sender: me, PoolId: 3, MaxAmountsIn: sdk.NewCoins(chain.CoinI(d, g.Amt(1e3, 5e10))), ShareAmountOut: math.NewInt(1)}
+			}
+			d2 := []string{"uusdc", "uelys"}[r.Intn(2)]
+			return &ammtypes.MsgJoinPool{Sender: me, PoolId: 2, MaxAmountsIn: sdk.NewCoins(chain.CoinI(d2, g.Amt(1e3, 5e10))), ShareAmountOut: math.NewInt(1)}
+		}
 		if w.ElysMarketPool != 0 && r.Intn(4) == 0 {
 			d = []string{"uusdc", "uelys"}[r.Intn(2)]
 			return &ammtypes.MsgJoinPool{Sender: me, PoolId: w.ElysMarketPool, MaxAmountsIn: sdk.NewCoins(chain.CoinI(d, g.Amt(1e3, 5e10))), ShareAmountOut: math.NewInt(1)}
